@@ -20,6 +20,7 @@ func rulesC15(c *Ctx) {
 		"R15.3 ids: exactly one id.Add(1) before each builder call; each builder stamps Id: id.Load(), the given network instance, the given method and the payload of rib.Concrete<Kind>Proto of its entry",
 		"R15.6 Reconcile compares (intended, target) in that order and merging operation sets keeps every bucket",
 		"R15.5 (shared with C03) a replace leaves the target's reference counts equal to what is installed: handleReferences / handleNHGReferences release exactly the replaced references — otherwise the deletes of a later reconciliation are refused and the target never converges",
+		"R15.7 (shared with C01) a replace is total: the install step deletes the old entry before merging the new payload, so leaves the new payload omits do not survive",
 		"R15.4 equal ⇒ silent: every operation is emitted under a difference test (missing on the other side, or not DeepEqual)")
 	c.NotDec = append(c.NotDec, "that applying the operations in the documented order succeeds and converges (an execution)", "DeepEqual semantics on ygot structs")
 	ruleDiffLoops(c)
@@ -32,6 +33,9 @@ func rulesC15(c *Ctx) {
 	ruleDeleteRefs(c)
 	ruleReconcileWiring(c)
 	ruleStateWriters(c, writersReconciler)
+	// a REPLACE emitted by the reconciler makes the target's entry equal to the intended one only if the install
+	// replaces the old entry instead of overlaying it, and hands back the replaced entry (shared with C01/C03)
+	ribFamily(c, famSel{mergeTotal: true, replacedOrig: true})
 }
 
 const recPkg = modPath + "/rib/reconciler"
